@@ -100,7 +100,17 @@ pub mod session {
         ensures final(c).reqs@ == old(c).reqs@.push(SessReq::Rollback(id)),
     { unimplemented!() }
 }
-pub struct RecvInner { pub ctl: SessionCtl, pub disposed: Ghost<Seq<(DeliveryInfo, Option<bool>, DeliveryState)>> }
+/// the link below the receiver endpoint: ReceiverLink::dispose writes the disposition but is NOT the endpoint's disposal -- it does not count the delivery as processed and
+/// does not top up the credit of an Auto(n) link (ReceiverInner::dispose does: unit LINKFLOW); present so that a change calling it directly is decided
+pub struct RecvLinkS { pub link_disposed: Ghost<Seq<(DeliveryInfo, Option<bool>, DeliveryState)>> }
+pub struct OutTx { pub p: u8 }
+impl RecvLinkS {
+    #[verifier::external_body]
+    pub fn dispose(&mut self, out: &OutTx, d: DeliveryInfo, settled: Option<bool>, state: DeliveryState, batchable: bool) -> (r: Result<(), IllegalLinkStateError>)
+        ensures r is Ok ==> final(self).link_disposed@ == old(self).link_disposed@.push((d, settled, state)),
+    { unimplemented!() }
+}
+pub struct RecvInner { pub ctl: SessionCtl, pub disposed: Ghost<Seq<(DeliveryInfo, Option<bool>, DeliveryState)>>, pub link: RecvLinkS, pub outgoing: OutTx }
 impl RecvInner {
     #[verifier::external_body]
     pub fn session_control(&mut self) -> (r: &mut SessionCtl)
@@ -159,7 +169,7 @@ impl TxnCoordinator {
 //@@ spec
     ensures
         final(self).txn_ids == old(self).txn_ids && final(self).inner.ctl == old(self).inner.ctl,
-        r is Ok ==> final(self).inner.disposed@ == old(self).inner.disposed@.push((delivery_info, Some(true), DeliveryState::Rejected(Rejected { error: Some(TxnRejection { condition: error }) }))),   // [C18.coordinator.rejection] a refused control message is settled with a rejected outcome carrying the transaction error
+        r is Ok ==> final(self).inner.disposed@ == old(self).inner.disposed@.push((delivery_info, Some(true), DeliveryState::Rejected(Rejected { error: Some(TxnRejection { condition: error }) }))),   // [C18.coordinator.rejection] [C09.coordinator.disposal-through-the-endpoint] a refused control message is disposed of through the receiver ENDPOINT (which counts it and re-issues the control link's credit), not past it; a refused control message is settled with a rejected outcome carrying the transaction error
         r is Err ==> final(self).inner.disposed@ == old(self).inner.disposed@,
 //@@ end
 
